@@ -398,6 +398,10 @@ def shape_rules(ctx, rid, core, G, scope_fns):
                         ok, why = match_skeleton(flat, [I("name"), ":", C("<value>")], {})
                     if not ok:
                         names_k = {w[1] for w in SKEL_KEY[vs[0]] if isinstance(w, tuple)} | {"<value>", "name", "key", "entry"}
+                        # the entry printer written inside the record arm of a general printer: the entry is then a loop / closure variable
+                        # the interpreter does not tie to `entry` (its value shows up as a value that is not part of the node)
+                        if vs[0] != "Shorthand" and any(x[0] == "child" and x[1] == ("<value>",) for x in strip_layout(flat)):
+                            continue
                         if [x for x in strip_layout(flat) if x[0] in ("child", "ident", "rewritten", "loop", "opt") and x[1] and x[1][0] not in names_k]:
                             continue  # text from something that is not part of the entry: representation not understood
                         bad.append(why)
